@@ -795,3 +795,28 @@ Proof.
     unfold elig in He. apply andb_true_iff in He. destruct He as [_ He]. apply Z.ltb_lt in He. lia.
   - split; [exact G1|]. left. split; [reflexivity|]. apply Hn. exact E.
 Qed.
+
+(* ---------------------------------------------------------------- Update with an unchanged configuration *)
+(* conf names exactly the backends of bs, each with its current weight (a weight <= 0 entry already has credit 0) *)
+Definition same_conf (bs : list backend) (conf : list (Z * Z)) : Prop :=
+  (forall b, In b bs -> exists w, lookup (b_id b) conf = Some w /\ b_w b = 100 * w /\ (w <= 0 -> b_c b = 0)) /\
+  (forall e, In e conf -> In (fst e) (map b_id bs)).
+
+Lemma filter_none_s {X} (f : X -> bool) l : (forall x, In x l -> f x = false) -> filter f l = [].
+Proof.
+  induction l as [|x r IH]; simpl; intros H; [reflexivity|]. rewrite (H x (or_introl eq_refl)). apply IH.
+  intros y Hy. apply H. right. exact Hy.
+Qed.
+
+Theorem update_identity bs conf : same_conf bs conf -> update bs conf = bs.
+Proof.
+  intros [Hk Hn]. unfold update.
+  assert (E2 : filter (fun e : Z * Z => negb (existsb (Z.eqb (fst e)) (map b_id bs))) conf = []).
+  { apply filter_none_s. intros e He. apply negb_false_iff. apply existsb_exists. exists (fst e).
+    split; [apply Hn; exact He|apply Z.eqb_refl]. }
+  rewrite E2. simpl. rewrite app_nil_r.
+  clear Hn E2. induction bs as [|b r IH]; [reflexivity|]. simpl.
+  destruct (Hk b (or_introl eq_refl)) as [w [Hl [Hw Hc]]]. rewrite Hl. simpl. f_equal.
+  - destruct b as [[[i w0] c] a]. simpl in *. subst w0. destruct (Z.leb_spec w 0); [rewrite (Hc H)|]; reflexivity.
+  - apply IH. intros b' Hb'. apply Hk. right. exact Hb'.
+Qed.
